@@ -118,6 +118,10 @@ def run(ctx):
 
 
 # ---------------------------------------------------------------- the transformations as formulas
+    from . import c09 as _c09
+
+    _c09.shapeset_identities(ctx)  # (tools/wiring.py) the exported values are space.evaluate of the basis: reference functions and the RWG / SNC evaluators
+    _c09.edge_evaluators(ctx)
 
 
 class _Q:
